@@ -19,33 +19,43 @@ package fragmentation
 //@   modifies nothing
 //@ func (*PackageVersionAnsPayload).UnmarshalBinary
 //@   props C09 C10
+//@   inline
 //@   modifies *p
 //@ func (*FragSessionSetupReqPayload).UnmarshalBinary
 //@   props C09 C10
+//@   inline
 //@   modifies *p
 //@ func (*FragSessionSetupAnsPayload).UnmarshalBinary
 //@   props C09 C10
+//@   inline
 //@   modifies *p
 //@ func (*FragSessionDeleteReqPayload).UnmarshalBinary
 //@   props C09 C10
+//@   inline
 //@   modifies *p
 //@ func (*FragSessionDeleteAnsPayload).UnmarshalBinary
 //@   props C09 C10
+//@   inline
 //@   modifies *p
 //@ func (*DataFragmentPayload).UnmarshalBinary
 //@   props C09 C10
+//@   inline
 //@   modifies *p
 //@ func (*FragSessionStatusReqPayload).UnmarshalBinary
 //@   props C09 C10
+//@   inline
 //@   modifies *p
 //@ func (*FragSessionStatusAnsPayload).UnmarshalBinary
 //@   props C09 C10
+//@   inline
 //@   modifies *p
 //@ func (*Command).UnmarshalBinary
 //@   props C09 C10
+//@   inline
 //@   modifies *c
 //@ func (Command).Size
 //@   props C09
+//@   inline
 //@   modifies nothing
 //@   requires typed-nil: c.Payload != nil ==> as_nonnil(c.Payload)
 //@   ensures positive: result >= 1
